@@ -14,12 +14,14 @@ _AXIOMS = []
 _CFG = {}
 
 
-def _mk_solver(o, timeout_ms, mbqi=True):
+def _mk_solver(o, timeout_ms, mbqi=True, rel0=False):
     s = z3.Solver()
     s.set("timeout", timeout_ms)
     s.set("random_seed", 0)
     if not mbqi:
         s.set("smt.mbqi", False)
+    if rel0:
+        s.set("smt.relevancy", 0)
     if not getattr(o, "pure", False):
         for a in _AXIOMS:
             s.add(a)
@@ -98,6 +100,12 @@ def _work(i):
         s = _mk_solver(o, _CFG["z3_ms"], mbqi=False)
         r = s.check()
         if r != z3.unsat:
+            # pass 1b: without relevancy filtering (z3 otherwise leaves recursive-function atoms that stem from
+            # quantifier instances folded)
+            s1 = _mk_solver(o, _CFG["z3_ms"], mbqi=False, rel0=True)
+            if s1.check() == z3.unsat:
+                r = z3.unsat
+        if r != z3.unsat:
             s = _mk_solver(o, _CFG["z3_ms"])
             r = s.check()
         verdict = str(r)
@@ -147,16 +155,76 @@ def _cvc5(s, timeout_ms):
 
 
 def discharge(obls, axioms, z3_ms=10000, cvc5_ms=20000, workers=12, cvc5=True):
+    """one forked child per obligation (pristine solver state => deterministic verdicts), at most `workers` at a time;
+    a child that outlives its hard deadline is killed (z3 does not honour soft timeouts inside some E-matching loops)
+    and its obligation is reported `unknown`."""
+    import json
+    import select
+    import signal
     global _OBLS, _AXIOMS, _CFG
     _OBLS, _AXIOMS = obls, axioms
     _CFG = dict(z3_ms=z3_ms, cvc5_ms=cvc5_ms, cvc5=cvc5)
-    ctx = mp.get_context("fork")
-    if workers <= 1 or len(obls) <= 1:
-        results = [_work(i) for i in range(len(obls))]
-    else:
-        with ctx.Pool(min(workers, len(obls)), maxtasksperchild=1) as p:
-            results = p.map(_work, range(len(obls)), chunksize=1)
-    for i, verdict, backend, t, wit in results:
+    hard = (3 * z3_ms + cvc5_ms) / 1000.0 + 15
+    pending = list(range(len(obls)))
+    running = {}   # fd -> (pid, i, t0, buf)
+    results = {}
+    while pending or running:
+        while pending and len(running) < workers:
+            i = pending.pop(0)
+            if obls[i].verdict == "unsat":
+                results[i] = (i, "unsat", "simplifier", 0.0, None)
+                continue
+            rfd, wfd = os.pipe()
+            pid = os.fork()
+            if pid == 0:
+                try:
+                    os.close(rfd)
+                    out = _work(i)
+                    data = json.dumps(out, default=str).encode()
+                    os.write(wfd, data)
+                except BaseException as ex:
+                    try:
+                        os.write(wfd, json.dumps([i, "error:" + str(ex)[:200], "z3", 0.0, None]).encode())
+                    except BaseException:
+                        pass
+                finally:
+                    os._exit(0)
+            os.close(wfd)
+            running[rfd] = [pid, i, time.time(), b""]
+        if not running:
+            continue
+        ready, _, _ = select.select(list(running), [], [], 0.5)
+        now = time.time()
+        for fd in list(running):
+            pid, i, t0, buf = running[fd]
+            done = False
+            if fd in ready:
+                chunk = os.read(fd, 1 << 20)
+                if chunk:
+                    running[fd][3] = buf + chunk
+                else:
+                    done = True
+            if done:
+                try:
+                    out = json.loads(running[fd][3].decode() or "null")
+                except Exception:
+                    out = None
+                if not out:
+                    out = [i, "unknown", "z3(child died)", now - t0, None]
+                results[i] = tuple(out)
+                os.close(fd)
+                os.waitpid(pid, 0)
+                del running[fd]
+            elif now - t0 > hard:
+                try:
+                    os.kill(pid, signal.SIGKILL)
+                except ProcessLookupError:
+                    pass
+                os.waitpid(pid, 0)
+                os.close(fd)
+                del running[fd]
+                results[i] = (i, "unknown", "z3(killed at hard limit)", now - t0, None)
+    for i, verdict, backend, t, wit in results.values():
         o = obls[i]
         o.verdict, o.backend, o.time, o.witness = verdict, backend, t, wit
     return obls
